@@ -104,21 +104,23 @@ ent_entries = [
     ("e.type", "ValidationError.NoType", "not truthy(%s)" % ATTR.format("type")),
     ("e.id", "ValidationError.NoID", "not truthy(%s)" % ATTR.format("entity_id")),
     ("e.name", "ValidationError.NoName", "not truthy(%s)" % ATTR.format("name")),
+    ("e.date", "ValidationError.NoDate", "is_none(%s)" % ATTR.format("created_at")),
 ]
 _cl = exactly("result", ent_entries)
 REG.contract(
     "nixio.validator.check_entity", props=["C14"],
     params=dict(entity=Obj("Entity")), result=SeqOf(Str),
-    requires=["obj(entity) != 0", "is_str(attr(obj(entity), 'created_at')) or is_bytes(attr(obj(entity), 'created_at'))"] +
+    requires=["obj(entity) != 0", "is_str(attr(obj(entity), 'created_at')) or is_bytes(attr(obj(entity), 'created_at')) or "
+                                  "is_none(dec(attr(obj(entity), 'created_at')))"] +
              ["is_none({0}) or is_str({0})".format(ATTR.format(k)) for k in ("type", "entity_id", "name")],
-    ensures=_cl, prop_clauses=[c[0] for c in _cl],
-    note="domain: an entity with a stored creation time (NoDate is then never reported; entities are created with one)")
+    ensures=_cl, prop_clauses=[c[0] for c in _cl])
 
 for _fn, _cls in (("check_block", "Block"), ("check_group", "Group"), ("check_source", "Source")):
     _arg = _fn.split("_")[1]
     REG.contract(
         "nixio.validator.%s" % _fn, props=["C14"], params={_arg: Obj(_cls)}, result=LISTS,
-        requires=["obj(%s) != 0" % _arg, "is_str(attr(obj({0}), 'created_at')) or is_bytes(attr(obj({0}), 'created_at'))".format(_arg)] +
+        requires=["obj(%s) != 0" % _arg, "is_str(attr(obj({0}), 'created_at')) or is_bytes(attr(obj({0}), 'created_at')) or "
+                                         "is_none(dec(attr(obj({0}), 'created_at')))".format(_arg)] +
                  ["is_none({0}) or is_str({0})".format(ATTR2.format(k, _arg)) for k in ("type", "entity_id", "name")],
         ensures=[("same", "result[0] == result_of('check_entity') and arg_of('check_entity', 'entity') == %s" % _arg, "prop"),
                  ("nowarn", "len(result[1]) == 0", "prop")],
